@@ -128,3 +128,8 @@ Proof.
   apply lbl_loop_keeps in E2. apply ptr_loop_keeps in E1. destruct E1 as [D1 _]. destruct E2 as [D2 _].
   unfold size. rewrite D2, D1. cbn [a_data]. eapply sliceN_length. exact Ed.
 Qed.
+
+(* the no-panic half alone, for arbitrary accepted input (what the property sentence claims) *)
+Theorem text_accepted_reserialize_no_panic : forall fmt e f t, TextFormat.from_bytes fmt e f = Ok t ->
+  forall m e' k, TextFormat.serialize m fmt e' t <> Panic k.
+Proof. intros fmt e f t _ m e' k. apply text_serialize_no_panic. Qed.
